@@ -12,7 +12,7 @@
 -/
 import DiskfsModel.Model.Fat.Emit
 import DiskfsModel.Proofs.FatFlatFs
-import DiskfsModel.Proofs.FatGeom
+import DiskfsModel.Proofs.FatGeomGen
 namespace Diskfs.Fat
 
 /-! ### the logging step is the step -/
